@@ -67,7 +67,8 @@ pub fn parse_import(it: &mut LexIterator) -> ParseResult {
 
     let end = it.eat(&Token::Import, "import")?;
     let mut import = vec![];
-    it.peek_while_not_tokens(&[Token::As, Token::NL], &mut |it, _| {
+    let end_tokens = [Token::As, Token::NL, Token::Dedent, Token::Eof];
+    it.peek_while_not_tokens(&end_tokens, &mut |it, _| {
         import.push(*it.parse(&parse_id, "import", start)?);
         it.eat_if(&Token::Comma);
         Ok(())
@@ -79,7 +80,7 @@ pub fn parse_import(it: &mut LexIterator) -> ParseResult {
 
     let alias = if it.eat_if(&Token::As).is_some() {
         let mut alias = vec![];
-        it.peek_while_not_token(&Token::NL, &mut |it, lex| match lex.token {
+        it.peek_while_not_tokens(&end_tokens[1..], &mut |it, lex| match lex.token {
             Token::Id(_) => {
                 alias.push(*it.parse(&parse_id, "as", start)?);
                 it.eat_if(&Token::Comma);
@@ -203,10 +204,8 @@ pub fn parse_return(it: &mut LexIterator) -> ParseResult {
     let start = it.start_pos("return")?;
     it.eat(&Token::Ret, "return")?;
 
-    if let Some(end) = it.eat_if(&Token::NL) {
-        let node = Node::ReturnEmpty;
-        return Ok(Box::from(AST::new(start.union(end), node)));
-    } else if it.peek_if(&|lex| lex.token == Token::Dedent || lex.token == Token::Eof)
+    // the newline after a return without expression separates it from the next statement
+    if it.peek_if(&|lex| matches!(lex.token, Token::NL | Token::Dedent | Token::Eof))
         || it.peek_next().is_none()
     {
         let node = Node::ReturnEmpty;
